@@ -155,14 +155,15 @@ def rule_confined(log, root):
 
 def check_write_trace(log, root, target, existed, overwrite, missing_dirs):
     """
-    Decide the log of one *successful* write of `target` (absolute real path).
+    Decide the log of one *successful* write of `target` (absolute real path). `rule_confined` is separate: it
+    applies to every recorded operation, successful or not.
 
     existed       the target existed before the call (then overwrite must have been requested)
     missing_dirs  ancestor directories of the target that did not exist before the call, parent first
     Returns [(rule, ok, witness)], rule 'saw_write' is a *reach* rule: False means the recorder did not
     see the write at all (dead hook / bypassed monitor), which must never be reported as 'held'.
     """
-    out = [rule_confined(log, root)]
+    out = []
     ev = log.events
     writes = [e for e in ev if e.kind == "open_write" and e.path == target]
     arrivals = [e for e in ev if e.kind in ("rename", "move", "copyfile", "link") and e.path2 == target]
@@ -197,8 +198,7 @@ def check_write_trace(log, root, target, existed, overwrite, missing_dirs):
 def check_refused_trace(log, root, target):
     """A write that had to be refused (target exists, overwrite not requested) must not touch the target."""
     touched = [e for e in log.events if e.path == target or e.path2 == target]
-    return [rule_confined(log, root),
-            ("refused_write_untouched", not touched, {"target": target, "events": [list(e) for e in touched[:6]]})]
+    return [("refused_write_untouched", not touched, {"target": target, "events": [list(e) for e in touched[:6]]})]
 
 
 def check_readonly_trace(log):
